@@ -32,6 +32,7 @@ pub open spec fn spec_car_weight(ops: Seq<OpCode>) -> int decreases ops.len(), 0
         }
     }
 }
+//@LEMMA C11 lemma_weight_range every instruction weighs at least 1; weights saturate at u128::MAX
 pub proof fn lemma_weight_range(ops: Seq<OpCode>)
     ensures 0 <= spec_weight(ops) <= u128::MAX, 0 <= spec_car_weight(ops) <= u128::MAX, ops.len() > 0 ==> spec_car_weight(ops) >= 1
     decreases ops.len(), 1int
